@@ -325,6 +325,7 @@ func runTd(o *Out, rng *rand.Rand, thorough bool) {
 	}
 	shapes := map[string]bool{}
 	for ci := 0; ci < ncases; ci++ {
+		rng := o.CaseRng(ci)
 		malformed := ci%5 == 4
 		c := genTdCase(rng, malformed)
 		var x tdExpr
@@ -333,6 +334,9 @@ func runTd(o *Out, rng *rand.Rand, thorough bool) {
 			x, err = buildTdAPI(c)
 		} else {
 			x, err = buildTdJSON(c)
+		}
+		if !o.BeginCase(ci, c) {
+			continue
 		}
 		o.Meta.Cases++
 		o.Count("kind:" + c.Kind)
